@@ -14,7 +14,7 @@ func Specs() map[string]*Spec {
 	m := map[string]*Spec{}
 	m["C05"] = &Spec{
 		ID: "C05", Level: "exploration", Main: "inst", Variants: []string{"inst"}, Block: 4,
-		QuickWall: 4 * time.Minute, ThoroughWall: 20 * time.Minute, BlockWall: 15 * time.Minute,
+		QuickWall: 30 * time.Minute, ThoroughWall: 20 * time.Minute, BlockWall: 15 * time.Minute,
 		Nontrivial: "input",
 		RequireProbes: []string{"exhaustive_prefix_units", "returned_tree", "returned_error", "entry_file", "entry_expr", "linearity_pairs", "kind_prefix", "kind_skeleton", "kind_pump", "kind_random-bytes", "kind_tags-file", "kind_tags-template", "kind_tags-nested",
 			"kind_expr-seq", "kind_truncate-tag", "kind_splice", "sched_lockstep", "sched_random-q1", "sched_random-q7", "sched_rr-q1", "chan_ops", "switches"},
@@ -64,7 +64,7 @@ func Specs() map[string]*Spec {
 			cov["native_cross_check"] = map[string]interface{}{"sequences": a.Counters["native_sequences"], "parse_calls": a.Evals, "leaks_seen_by_the_real_runtime": len(a.Fails)}
 			return nil
 		},
-		QuickWall: 4 * time.Minute, ThoroughWall: 20 * time.Minute, BlockWall: 15 * time.Minute,
+		QuickWall: 30 * time.Minute, ThoroughWall: 20 * time.Minute, BlockWall: 15 * time.Minute,
 		Nontrivial: "history",
 		Rule: "sequences of up to 200 parse calls (parse.SoyFile, parse.Expr, soy.ParseGlobals, Bundle.Compile) run inside one simulated process; after every call returns the scheduler runs all remaining tasks to quiescence and any task " +
 			"that is alive and disabled for ever (blocked in a send nobody will receive) is a leak. Exhaustive part: every byte-prefix of every corpus item, in sequences of 200; seeded part: sequences mixing corpus prefixes, mutants, " +
@@ -88,7 +88,7 @@ func init() {
 	extraSpecs = append(extraSpecs, func(m map[string]*Spec) {
 		m["C12"] = &Spec{
 			ID: "C12", Level: "fault_enumeration", Main: "plain", Variants: []string{"plain"}, Block: 2,
-			QuickWall: 3 * time.Minute, ThoroughWall: 20 * time.Minute, BlockWall: 15 * time.Minute,
+			QuickWall: 30 * time.Minute, ThoroughWall: 20 * time.Minute, BlockWall: 15 * time.Minute,
 			Nontrivial: "case",
 			Rule: "seeded generated bundles (1-4 files x 1-5 templates, all commands, directive chains, calls with data=all/data=$m/content params, msg with placeholders, html tags and plurals, globals, $ij, autoescape modes), " +
 				"each rendered per entry template and data set through a recording writer (without a message bundle, with a stub bundle, or with the repository's own PO-file bundle loaded from a generated catalogue). Swarm per case: the entry point (Renderer.Execute with $ij and catalogue, or Tofu.Render) and the optional interfaces the writer offers besides Write " +
@@ -120,7 +120,7 @@ func init() {
 	extraSpecs = append(extraSpecs, func(m map[string]*Spec) {
 		m["C08"] = &Spec{
 			ID: "C08", Level: "exploration", Main: "plain", Also: []string{"inst"}, Variants: []string{"plain", "inst"}, Block: 2,
-			QuickWall: 3 * time.Minute, ThoroughWall: 20 * time.Minute, BlockWall: 15 * time.Minute,
+			QuickWall: 30 * time.Minute, ThoroughWall: 20 * time.Minute, BlockWall: 15 * time.Minute,
 			Nontrivial: "history",
 			Rule: "seeded histories of 2..8 (quick) / 2..40 (thorough) operations over ONE compiled generated bundle, one set of data maps, $ij maps and message catalogues, all reused for the whole history. Operations: render; render through a reused Renderer value; " +
 				"render into a writer failing at write k; render in which the vfail function/directive panics at its n-th invocation (error, string, runtime.Error or struct value); render with ill-typed data; soyjs.Write (ES5/ES6, with/without catalogue); Generator.WriteFile; " +
@@ -143,7 +143,7 @@ func init() {
 	extraSpecs = append(extraSpecs, func(m map[string]*Spec) {
 		m["C06"] = &Spec{
 			ID: "C06", Level: "fault_enumeration", Main: "inst", Variants: []string{"inst"}, Block: 2,
-			QuickWall: 4 * time.Minute, ThoroughWall: 20 * time.Minute, BlockWall: 15 * time.Minute,
+			QuickWall: 30 * time.Minute, ThoroughWall: 20 * time.Minute, BlockWall: 15 * time.Minute,
 			Nontrivial: "case",
 			Rule: "seeded generated bundles in valid mode and in chaos mode (1-4 typing-discipline-breaking mutations: ill-typed / out-of-range / wrong-arity expressions and directives, non-positive range steps, a template name defined again in a second shorter file, " +
 				"failing prints inside callees, plural on non-integers, data of arbitrary JSON shape with missing params). For every entry: a fault-free reference run under the simulator's step clock records every invocation of the vfail function/directive, every write and every catalogue lookup; " +
@@ -174,8 +174,8 @@ func init() {
 func init() {
 	extraSpecs = append(extraSpecs, func(m map[string]*Spec) {
 		m["C09"] = &Spec{
-			ID: "C09", Level: "exploration", Main: "race", Variants: []string{"race"}, Block: 3,
-			QuickWall: 4 * time.Minute, ThoroughWall: 20 * time.Minute, BlockWall: 15 * time.Minute,
+			ID: "C09", Level: "exploration", Main: "race", Variants: []string{"race"}, Block: 1,
+			QuickWall: 30 * time.Minute, ThoroughWall: 20 * time.Minute, BlockWall: 15 * time.Minute,
 			Nontrivial: "interleaving", Recheck: 12,
 			Rule: "each run compiles a seeded generated bundle (set-up in the harness task, as a server does at start-up), then 2-6 client tasks each perform 1-4 operations on the SHARED Tofu, registry, data maps, $ij maps and message bundle (a stateless stub or the repository's own pomsg bundle loaded from generated PO text): render (same or different templates, with/without catalogue), " +
 				"Execute on one *Renderer object shared by the tasks, Tofu.Render with shared Go struct values (conversion through data.New), soyjs.Write (ES5/ES6), compilation of an independent bundle and parse.SoyFile (two fifths of them on a damaged file, so that scanner and parser take their error paths; " +
@@ -264,7 +264,7 @@ func init() {
 	extraSpecs = append(extraSpecs, func(m map[string]*Spec) {
 		m["C13"] = &Spec{
 			ID: "C13", Level: "exploration", Main: "inst", Variants: []string{"inst", "plain"}, Block: 2,
-			QuickWall: 4 * time.Minute, ThoroughWall: 20 * time.Minute, BlockWall: 15 * time.Minute,
+			QuickWall: 30 * time.Minute, ThoroughWall: 20 * time.Minute, BlockWall: 15 * time.Minute,
 			Nontrivial: "order_assignment",
 			Rule: "for each seeded generated bundle (emphasis: ES6 imports of many templates/functions/directives, map literals in printed, error-producing and placeholder positions, colliding placeholder names, a quarter of the cases with a call that omits a required param so that the compile error prints the call, others with several undefined globals, unused or undeclared params; in an eighth of the cases exactly one error - a call to a missing template under a short name that other namespaces use - " +
 				"is injected into a bundle the compiler otherwise accepts; short template names recur across namespaces; in half of the cases the globals reach the bundle through AddGlobalsFile) " +
@@ -287,7 +287,7 @@ func init() {
 	extraSpecs = append(extraSpecs, func(m map[string]*Spec) {
 		m["C10"] = &Spec{
 			ID: "C10", Level: "exploration", Main: "inst", Variants: []string{"inst", "plain"}, Block: 3,
-			QuickWall: 4 * time.Minute, ThoroughWall: 20 * time.Minute, BlockWall: 15 * time.Minute,
+			QuickWall: 30 * time.Minute, ThoroughWall: 20 * time.Minute, BlockWall: 15 * time.Minute,
 			Nontrivial: "order_assignment",
 			Rule: "seeded generated messages built from a vocabulary chosen for the placeholder naming pass: repeated expressions, distinct expressions with one base name ($x, $a.x, $b.x), base names that look like suffixed names ($x_1, $a.x_1, $x_2), expressions without a base name, " +
 				"global references, map literals inside placeholders, html tags (two different <a> tags, a tag named a_1), plurals with placeholders in several cases, meanings and descriptions. For every message: (a) the id, placeholder names and placeholder string under every single-site perturbation " +
